@@ -24,7 +24,9 @@ RULE = ("random DAGs on 2..5 data columns (plus sometimes a column outside the m
         "shuffled state names; EM without latents and with one latent variable (init_cpds for all / some / none of the latent-involved "
         "nodes, the rest drawn from seed and reproduced for the model), max_iter 1..3, batch_size "
         "None|1|2|3|4|7 against the number of distinct rows, atol None|0.01|0.2 with pgmpy's stopping rule "
-        "applied to the model's iterates, default/explicit latent_card, progress bar on/off; rejection stream (node missing from data, undeclared state, wrong pseudo_counts shape).  A case "
+        "applied to the model's iterates, default/explicit latent_card, progress bar on/off; session stream (one caller-owned PARTIAL state_names dict reused by 2-3 successive fit / DAG.fit / "
+        "get_parameters / EM calls on folds whose observed states of the undeclared variables differ; the dict "
+        "must come back unchanged); rejection stream (node missing from data, undeclared state, wrong pseudo_counts shape).  A case "
         "is non-trivial when some node has >=1 parent and >=2 states; distinct = distinct canonical input")
 TRUSTED_BASE = ["pandas groupby/size/sum/unstack/reindex, numpy transpose/reshape, joblib: modelled by their "
                 "documented meaning (counting functions over rows), tied by this correspondence run",
@@ -350,6 +352,55 @@ def _reaches(edges, a, b):
     return False
 
 
+SESSION_OPS = ["bnfit-mle", "bnfit-mle", "bnfit-k2", "bnfit-bdeu", "dagfit-mle", "est-mle", "est-k2", "em"]
+
+
+def gen_session(rng, tier):
+    """ONE partial state_names dict (some variables declared, the others left to the data) reused by 2-3
+    successive fits on data sets (folds) whose OBSERVED states of the undeclared variables differ"""
+    n = rng.randint(2, 4)
+    names = gen_names(rng, n)
+    nodes, edges = common.rand_dag(rng, n, p=rng.choice([0.5, 0.7, 0.9]))
+    flags = [rng.random() < 0.45 for _ in range(n)]
+    if all(flags):
+        flags[rng.randrange(n)] = False
+    if not any(flags):
+        flags[rng.randrange(n)] = True
+    cols = []
+    for d in flags:
+        c = gen_col(rng, rng.choice([2, 3, 3, 4]), declare_p=0.0, extra_p=0.5 if d else 0.0, force_declare=d)
+        cols.append(c)
+    und = [i for i in range(n) if not flags[i]]
+    nf = rng.choice([2, 2, 3])
+    folds, prev_allowed = [], None
+    for f in range(nf):
+        while True:
+            allowed = {}
+            for i in range(n):
+                full = list(range(cols[i]["used"]))
+                if i in und and rng.random() < 0.75:
+                    allowed[i] = sorted(rng.sample(full, rng.randint(1, len(full))))
+                else:
+                    allowed[i] = full
+            if prev_allowed is None or any(allowed[i] != prev_allowed[i] for i in und):
+                break
+        rows = []
+        nrows = rng.choice([3, 5, 8, 12])
+        for r_ in range(nrows):
+            rows.append([rng.choice(allowed[i]) for i in range(n)])
+        # every allowed state of an undeclared variable does occur (so the folds really differ)
+        for i in und:
+            for k_, sidx in enumerate(allowed[i]):
+                rows[k_ % nrows][i] = sidx if k_ < nrows else rows[k_ % nrows][i]
+        folds.append(rows)
+        prev_allowed = {i: sorted(set(r[i] for r in rows)) for i in range(n)}
+    colorder = list(range(n))
+    rng.shuffle(colorder)
+    return {"kind": "session", "names": names, "nodes": nodes, "edges": [list(e) for e in edges], "cols": cols,
+            "rows": folds[0], "folds": folds, "ops": [rng.choice(SESSION_OPS) for _ in folds], "weights": None,
+            "colorder": colorder, "ess": [5, 1], "mseed": rng.randint(0, 10**9)}
+
+
 def cases(tier, seed):
     rng = random.Random(seed)
     k = 1 if tier == "quick" else 10
@@ -364,6 +415,8 @@ def cases(tier, seed):
         out.append(gen_em(rng, tier, False))
     for _ in range(90 * k):
         out.append(gen_em(rng, tier, True))
+    for _ in range(90 * k):
+        out.append(gen_session(rng, tier))
     return out
 
 
@@ -579,18 +632,19 @@ def prior_wire(case, vid):
     return [4, [[[fr(c) for c in row] for row in case["pcs"][str(i)]] for i in case["nodes"]]]
 
 
-def pgmpy_fit(case, df, edges=None, nodes=None):
-    """returns {name: TabularCPD} and the fitted model (or None)"""
+def pgmpy_fit(case, df, edges=None, nodes=None, sn=None):
+    """returns {name: TabularCPD} and the fitted model (or None); sn = a caller-owned state_names dict to pass
+    as is (session stream), else a fresh dict is built from the case"""
     import joblib
     if case["n_jobs"] == -1 or (case["n_jobs"] > 1 and not case.get("loky")):
         # quick tier: joblib's thread backend (the default process backend costs ~20 s per worker process to
         # import pgmpy once); the thorough tier uses the default backend
         with joblib.parallel_config(backend="threading"):
-            return _pgmpy_fit(case, df, edges, nodes)
-    return _pgmpy_fit(case, df, edges, nodes)
+            return _pgmpy_fit(case, df, edges, nodes, sn)
+    return _pgmpy_fit(case, df, edges, nodes, sn)
 
 
-def _pgmpy_fit(case, df, edges=None, nodes=None):
+def _pgmpy_fit(case, df, edges=None, nodes=None, sn=None):
     import numpy as np
     from pgmpy.base import DAG
     from pgmpy.models import BayesianNetwork
@@ -614,7 +668,8 @@ def _pgmpy_fit(case, df, edges=None, nodes=None):
                                 for i, t in case["pcs"].items()}}
     if case["weights"] is not None:
         kw["weighted"] = True
-    sn = state_names_kw(case)
+    if sn is None:
+        sn = state_names_kw(case)
     cls = MaximumLikelihoodEstimator if est == "mle" else BayesianEstimator
     api = case["api"]
     if api == "est":
@@ -1082,7 +1137,64 @@ def probe_max_iter_0(case, pg_em, tags):
         tags.append("out-of-domain max_iter=0: UnboundLocalError")
 
 
+def run_session(case, drv):
+    """the same caller-owned partial state_names dict passed to successive fits on different data sets: every
+    result must be the model's for (that data, the ORIGINAL declared dict) -- states of an undeclared variable
+    are those observed in the data being fitted -- and the dict itself must come back unchanged"""
+    import copy
+    from pgmpy.models import BayesianNetwork
+    from pgmpy.estimators import ExpectationMaximization
+    names = case["names"]
+    shared = state_names_kw(case)          # ONE object for the whole session
+    orig = copy.deepcopy(shared)
+    vid = vids(names)
+    tags = ["session folds=%d" % len(case["folds"])]
+    prev_seen = None
+    for step, (rows_f, op) in enumerate(zip(case["folds"], case["ops"])):
+        api, est = op.split("-") if "-" in op else ("em", "mle")
+        sub = dict(case, rows=rows_f, kind="fit", est=est, api={"bnfit": "bnfit", "dagfit": "dagfit", "est": "est"}.get(api, "bnfit"),
+                   n_jobs=1, weights=None)
+        st = col_states(sub)               # declared order for declared variables, sorted SEEN states of THIS fold otherwise
+        _, cards, cols, rows = model_frame(sub, st)
+        mnodes = [[vid[i], [vid[u] for u in parents_of(case, i)]] for i in case["nodes"]]
+        reply = drv.call("c06_fit", [cards, cols, [[r, Fraction(1)] for r in rows], mnodes,
+                                     prior_wire(sub, vid) if api != "em" else [0]])
+        df = make_frame(sub)
+        try:
+            if api == "em":
+                g = make_graph(case, BayesianNetwork)
+                cp = ExpectationMaximization(g, df, state_names=shared).get_parameters(max_iter=2, show_progress=False)
+                cpds = {c.variable: c for c in cp}
+            else:
+                cpds, _ = pgmpy_fit(sub, df, sn=shared)
+        except ValueError as e:
+            return bad("impl!=model:session-fit-raises", {"step": step, "op": op, "error": str(e)[:200],
+                                                          "state_names_now": _s(shared), "declared": _s(orig)})
+        for i, rep in zip(case["nodes"], reply):
+            ps_ids, named = decode_named(rep)
+            r = compare_cpd(sub, st, vid, i, cpds[names[i]], named, ps_ids, 1e-6 if api == "em" else 1e-9,
+                            "session-step%d" % step)
+            if isinstance(r, dict):
+                r["detail"]["op"] = op
+                r["detail"]["state_names_now"] = _s(shared)
+                return r
+        if shared != orig or list(shared) != list(orig):
+            return bad("impl!=spec:state_names-argument-modified", {"step": step, "op": op, "passed": _s(orig),
+                                                                    "after_call": _s(shared)})
+        seen = {i: set(r[i] for r in rows_f) for i in range(len(names)) if case["cols"][i]["declared"] is None}
+        if prev_seen is not None:
+            if any(seen[i] < prev_seen[i] for i in seen):
+                tags.append("undeclared-variable-loses-states")
+            if any(seen[i] > prev_seen[i] for i in seen):
+                tags.append("undeclared-variable-gains-states")
+        prev_seen = seen
+        tags.append("session op=" + op)
+    return ok(nontrivial=True, key=common.canon_key(_key(case) + [case["folds"], case["ops"]]), tags=sorted(set(tags)))
+
+
 def run_case(case, drv):
+    if case["kind"] == "session":
+        return run_session(case, drv)
     k = case["kind"]
     if k == "fit":
         return run_fit(case, drv)
